@@ -21,6 +21,13 @@ pub struct VerifyHeartbeatsCommand {
     interval: IggyDuration,
 }
 
+#[cfg(feature = "iggy_verif")]
+impl VerifyHeartbeatsCommand {
+    pub(crate) fn verif_new(interval: IggyDuration) -> Self {
+        Self { interval }
+    }
+}
+
 #[derive(Debug, Default, Clone)]
 pub struct VerifyHeartbeatsExecutor;
 
